@@ -474,4 +474,512 @@ class C21(Check):
         return viol['inv'] + (':' + viol['ctx'] if viol.get('ctx') else '')
 
 
-CHECKS = {'C21': C21()}
+
+# =========================================================================== C23: DOE worlds
+UFAC = {None: 1.0, 'cm': 0.01, 'mm': 0.001, 'km': 1000.0}
+
+
+def gen_doe(rng, tier):
+    fam = rng.choice(['doe', 'doe', 'analysis'])
+    ndv = rng.randint(1, 3)
+    dvs = []
+    for k in range(ndv):
+        src = rng.randint(1, 4)
+        idx = None
+        n = src
+        if src > 1 and rng.random() < 0.35:
+            n = rng.randint(1, src)
+            idx = sorted(rng.sample(range(src), n))
+            if rng.random() < 0.3:
+                idx = [i - src if rng.random() < 0.5 else i for i in idx]      # negative indices
+        arr = rng.random() < 0.5
+        lo = [dyadic(rng, -4, 2, 2) for _ in range(n)]
+        up = [l + rng.choice([0.25, 0.5, 1.0, 3.0, 8.0]) for l in lo]
+        if not arr:
+            lo, up = lo[0], max(up)
+            if up <= lo:
+                up = lo + 1.0
+        dv = {'name': f'x{k}', 'src_size': src, 'indices': idx, 'n': n, 'lower': lo, 'upper': up,
+              'units': rng.choice([None, None, 'cm', 'mm', 'km']),
+              'init': [dyadic(rng, -9, 9, 1) for _ in range(src)], 'scale': {}}
+        if fam == 'doe':
+            r = rng.random()
+            if r < 0.2:
+                dv['scale'] = {'scaler': rng.choice([2.0, 0.25, -1.0]), 'adder': rng.choice([0.0, 1.5])}
+            elif r < 0.4:
+                r0 = rng.choice([0.0, 1.0])
+                dv['scale'] = {'ref': r0 + rng.choice([4.0, 0.5, -2.0]), 'ref0': r0}
+        dvs.append(dv)
+    nf = sum(d['n'] for d in dvs)
+    kinds = ['fullfact', 'fullfact', 'lhs', 'lhs', 'uniform', 'pb', 'gsd']
+    if nf >= 3:
+        kinds.append('bb')
+    if fam == 'doe':
+        kinds += ['list', 'csv']
+    kind = rng.choice(kinds)
+    g = {'kind': kind}
+    if kind in ('fullfact', 'gsd'):
+        if rng.random() < 0.5:
+            g['levels'] = rng.randint(1 if kind == 'fullfact' else 2, 4)
+        else:
+            lv = {d['name']: rng.randint(1 if kind == 'fullfact' else 2, 4) for d in dvs if rng.random() < 0.7}
+            if rng.random() < 0.5 or not lv:
+                lv['default'] = rng.randint(2, 3)
+            g['levels'] = lv
+        # keep the design small
+        def nruns(levels):
+            t = 1
+            for d in dvs:
+                L = levels if isinstance(levels, int) else levels.get(d['name'], levels.get('default', 2))
+                t *= L ** d['n']
+            return t
+        while nruns(g['levels']) > 300:
+            if isinstance(g['levels'], int):
+                g['levels'] -= 1
+            else:
+                kmax = max(g['levels'], key=lambda q: g['levels'][q])
+                g['levels'][kmax] -= 1
+                if g['levels'][kmax] < 2:
+                    g['levels'] = 2
+        if kind == 'gsd':
+            g['reduction'] = rng.randint(2, 3)
+            g['n'] = rng.choice([1, 1, 2])
+    elif kind == 'lhs':
+        g['samples'] = rng.choice([None, rng.randint(1, 9)])
+        g['criterion'] = rng.choice([None, None, 'center', 'c', 'maximin', 'm', 'centermaximin', 'cm', 'correlation', 'corr'])
+        g['iterations'] = rng.randint(1, 4)
+        g['seed'] = rng.choice([None, rng.randint(0, 10 ** 6)])
+        if g['criterion'] in ('maximin', 'm', 'centermaximin', 'cm', 'correlation', 'corr'):
+            # pydoe's distance / correlation criteria are undefined for fewer than 3 samples or 1 factor
+            if (g['samples'] if g['samples'] is not None else nf) < 3:
+                g['samples'] = rng.randint(3, 9)
+            if nf < 2 and g['criterion'] in ('correlation', 'corr'):
+                g['criterion'] = 'maximin'
+    elif kind == 'uniform':
+        g['num_samples'] = rng.randint(1, 9)
+        g['seed'] = rng.choice([None, rng.randint(0, 10 ** 6)])
+    elif kind == 'bb':
+        g['center'] = rng.choice([None, 1, 2])
+    elif kind in ('list', 'csv'):
+        ncase = rng.randint(1, 5)
+        cases = []
+        for _ in range(ncase):
+            case = []
+            for d in dvs:
+                lo = d['lower'] if isinstance(d['lower'], list) else [d['lower']] * d['n']
+                up = d['upper'] if isinstance(d['upper'], list) else [d['upper']] * d['n']
+                case.append([d['name'], [lo[i] + (up[i] - lo[i]) * rng.choice([0.0, 0.25, 0.5, 1.0]) for i in range(d['n'])]])
+            cases.append(case)
+        g['cases'] = cases
+    plan = {'family': fam, 'dvs': dvs, 'gen': g,
+            'rng': [[rng.randint(0, 2 ** 31 - 1), rng.randint(0, 50)] for _ in range(2)],
+            'second': rng.choice(['fresh', 'fresh', 'rerun']) if fam == 'doe' else 'fresh',
+            'faults': [], 'fault_kind': rng.choice(['analysis_error', 'analysis_error', 'runtime_error', 'nan'])}
+    if rng.random() < 0.4:
+        plan['faults'] = sorted({rng.randint(0, 12) for _ in range(rng.randint(1, 3))})
+    return plan
+
+
+class C23(Check):
+    pid = 'C23'
+    level = 'exploration'
+    engine = 'drvsim'
+    rule = ("plans = seeded design-variable sets (1-3 variables, 1-4 elements, scalar/array bounds, indices incl. negative, "
+            "units, driver scaling) x generator (FullFactorial int/dict levels, GSD, PlackettBurman, BoxBehnken, "
+            "LatinHypercube with every criterion, Uniform, List, CSV) x driver family (DOEDriver with doe_generators; "
+            "AnalysisDriver with drivers/sampling generators); the simulator perturbs the global NumPy RNG before each "
+            "of two executions (same Problem re-run or fresh Problem) and makes a seeded subset of model evaluations "
+            "fail (AnalysisError / RuntimeError / NaN output); distinct = event-log digests; non-trivial = at least "
+            "two cases were generated and every one of them was matched against a model evaluation")
+    assumptions = ["the generator's emitted cases are observed by a pass-through wrapper around the real generator object; "
+                   "the model's received values by the stub component's compute",
+                   "generated values are compared with received values to 1e-12 relative (unit conversion is one multiplication)",
+                   "Latin-hypercube strata are judged on the emitted unit-cube position (v - lower)/(upper - lower) with a 1e-9 guard at stratum edges",
+                   "CSV cases are written with repr() precision by the harness",
+                   "hash seed is pinned (PYTHONHASHSEED=0); reproducibility is judged across two executions in one interpreter with different ambient RNG state"]
+    real = ['DOEDriver', 'AnalysisDriver', 'doe_generators.*', 'drivers/sampling/*', 'pydoe 1.5', 'Driver._set_design_var', 'Problem.set_val']
+    stubs = ['summing stub component recording every evaluation', 'fault plan on evaluations', 'global RNG perturbation events']
+
+    def budget(self, tier):
+        if tier == 'thorough':
+            return {'runs': 80000, 'time': 1200.0, 'run_cap': 60.0, 'selftest': 100}
+        return {'runs': 3000, 'time': 50.0, 'run_cap': 60.0, 'selftest': 12}
+
+    def gen(self, rng, tier):
+        return gen_doe(rng, tier)
+
+    # ----------------------------------------------------------------- building
+    def _make_generator(self, plan, emitted, scratch_tag):
+        import openmdao.api as om
+        g = plan['gen']
+        fam = plan['family']
+        k = g['kind']
+        if fam == 'doe':
+            import openmdao.drivers.doe_generators as G
+            if k == 'fullfact':
+                lv = g['levels']
+                inner = G.FullFactorialGenerator(levels=dict(lv) if isinstance(lv, dict) else lv)
+            elif k == 'gsd':
+                lv = g['levels']
+                inner = G.GeneralizedSubsetGenerator(levels=dict(lv) if isinstance(lv, dict) else lv,
+                                                     reduction=g['reduction'], n=g['n'])
+            elif k == 'pb':
+                inner = G.PlackettBurmanGenerator()
+            elif k == 'bb':
+                inner = G.BoxBehnkenGenerator(center=g['center'])
+            elif k == 'lhs':
+                inner = G.LatinHypercubeGenerator(samples=g['samples'], criterion=g['criterion'],
+                                                  iterations=g['iterations'], seed=g['seed'])
+            elif k == 'uniform':
+                inner = G.UniformGenerator(num_samples=g['num_samples'], seed=g['seed'])
+            elif k == 'list':
+                inner = G.ListGenerator([[(n, np.array(v)) for n, v in case] for case in g['cases']])
+            elif k == 'csv':
+                import os
+                from dst.core import util
+                os.makedirs(util.SCRATCH, exist_ok=True)
+                fn = os.path.join(util.SCRATCH, f"doe-{os.getpid()}-{scratch_tag}.csv")
+                with open(fn, 'w') as f:
+                    names = [n for n, _ in g['cases'][0]]
+                    f.write(','.join(names) + '\n')
+                    for case in g['cases']:
+                        f.write(','.join('"[' + ' '.join(repr(float(x)) for x in v) + ']"' for _, v in case) + '\n')
+                inner = G.CSVGenerator(fn)
+
+            class Tap(G.DOEGenerator):
+                def __call__(self, design_vars, model=None):
+                    for case in inner(design_vars, model):
+                        emitted.append([(n, np.array(v, dtype=float).copy()) for n, v in case])
+                        yield case
+            return Tap()
+        from openmdao.drivers.sampling import pyDOE_generators as P
+        from openmdao.drivers.sampling.uniform_generator import UniformGenerator as UG
+        vd = {}
+        for d in plan['dvs']:
+            m = {'lower': np.array(d['lower']) if isinstance(d['lower'], list) else d['lower'],
+                 'upper': np.array(d['upper']) if isinstance(d['upper'], list) else d['upper']}
+            if not isinstance(d['lower'], list) and d['n'] > 1:
+                m['lower'] = np.full(d['n'], d['lower'])
+                m['upper'] = np.full(d['n'], d['upper'])
+            if d['units']:
+                m['units'] = d['units']
+            if d['indices'] is not None:
+                m['indices'] = list(d['indices'])
+            vd[d['name']] = m
+        if k == 'fullfact':
+            lv = g['levels']
+            gen = P.FullFactorialGenerator(vd, levels=dict(lv) if isinstance(lv, dict) else lv)
+        elif k == 'gsd':
+            lv = g['levels']
+            gen = P.GeneralizedSubsetGenerator(vd, levels=dict(lv) if isinstance(lv, dict) else lv,
+                                               reduction=g['reduction'], n=g['n'])
+        elif k == 'pb':
+            gen = P.PlackettBurmanGenerator(vd)
+        elif k == 'bb':
+            gen = P.BoxBehnkenGenerator(vd, center=g['center'])
+        elif k == 'lhs':
+            gen = P.LatinHypercubeGenerator(vd, samples=g['samples'], criterion=g['criterion'],
+                                            iterations=g['iterations'], seed=g['seed'])
+        elif k == 'uniform':
+            gen = UG(vd, num_samples=g['num_samples'], seed=g['seed'])
+        base = type(gen)
+
+        class TapA(base):
+            def __next__(self):
+                d = base.__next__(self)
+                emitted.append([(n, np.array(m['val'], dtype=float).copy()) for n, m in d.items()])
+                return d
+        gen.__class__ = TapA
+        return gen
+
+    def _build(self, plan, emitted, trace, fault_state, tag):
+        import openmdao.api as om
+        dvs = plan['dvs']
+
+        class Stub(om.ExplicitComponent):
+            def setup(self):
+                for d in dvs:
+                    self.add_input(d['name'], np.zeros(d['src_size']), units='m' if d['units'] else None)
+                self.add_output('y', 0.0)
+
+            def compute(self, i, o):
+                k = fault_state['n']
+                fault_state['n'] += 1
+                trace.append({d['name']: np.array(i[d['name']]).copy() for d in dvs})
+                o['y'] = sum(float(np.sum(i[d['name']])) for d in dvs)
+                if k in fault_state['at']:
+                    fault_state['fired'].append(k)
+                    if plan['fault_kind'] == 'analysis_error':
+                        raise om.AnalysisError('sim-fault')
+                    if plan['fault_kind'] == 'runtime_error':
+                        raise RuntimeError('sim-fault')
+                    o['y'] = np.nan
+
+        p = om.Problem(name='d' + tag)
+        p.model.add_subsystem('c', Stub(), promotes=['*'])
+        gen = self._make_generator(plan, emitted, tag)
+        if plan['family'] == 'doe':
+            for d in dvs:
+                kw = dict(d['scale'])
+                if d['units']:
+                    kw['units'] = d['units']
+                if d['indices'] is not None:
+                    kw['indices'] = list(d['indices'])
+                p.model.add_design_var(d['name'], lower=np.array(d['lower']) if isinstance(d['lower'], list) else d['lower'],
+                                       upper=np.array(d['upper']) if isinstance(d['upper'], list) else d['upper'], **kw)
+            p.model.add_objective('y')
+            p.driver = om.DOEDriver(gen)
+        else:
+            p.driver = om.AnalysisDriver(samples=gen)
+            p.driver.add_response('y')
+        p.setup()
+        for d in dvs:
+            p.set_val(d['name'], np.array(d['init']), units='m' if d['units'] else None)
+        return p
+
+    # ----------------------------------------------------------------- laws
+    def _bounds(self, d):
+        lo = np.array(d['lower'] if isinstance(d['lower'], list) else [d['lower']] * d['n'], dtype=float)
+        up = np.array(d['upper'] if isinstance(d['upper'], list) else [d['upper']] * d['n'], dtype=float)
+        return lo, up
+
+    def _levels_of(self, plan, d):
+        lv = plan['gen'].get('levels')
+        if isinstance(lv, int):
+            return lv
+        return lv.get(d['name'], lv.get('default', 2))
+
+    def _laws(self, plan, emitted, viol, probes, tag):
+        g = plan['gen']
+        k = g['kind']
+        dvs = plan['dvs']
+        names = [d['name'] for d in dvs]
+        for ci, case in enumerate(emitted):
+            if [n for n, _ in case] != names:
+                # the analysis family keys by the names given; the DOE family by the names given to add_design_var
+                viol.append({'inv': 'I-23-case-shape', 'msg': f"{tag}: case {ci} names {[n for n, _ in case]} != {names}"})
+                return
+            for d, (n, v) in zip(dvs, case):
+                lo, up = self._bounds(d)
+                if v.size != d['n']:
+                    viol.append({'inv': 'I-23-case-shape', 'msg': f"{tag}: case {ci}: {n} has {v.size} values, expected {d['n']}"})
+                    return
+                tol = 1e-12 * (1 + np.maximum(np.abs(lo), np.abs(up)))
+                if k not in ('list', 'csv') and (np.any(v.ravel() < lo - tol) or np.any(v.ravel() > up + tol)):
+                    viol.append({'inv': 'I-23-bounds', 'msg': f"{tag}: {k} case {ci}: {n} = {v.tolist()} outside "
+                                 f"[{lo.tolist()}, {up.tolist()}]", 'ctx': k})
+                    return
+        if not emitted:
+            return
+        # flattened factor table
+        F = np.array([np.concatenate([v.ravel() for _, v in case]) for case in emitted])
+        lo = np.concatenate([self._bounds(d)[0] for d in dvs])
+        up = np.concatenate([self._bounds(d)[1] for d in dvs])
+        nf = len(lo)
+        if k in ('fullfact', 'gsd', 'pb', 'bb'):
+            L = np.concatenate([[self._levels_of(plan, d) if k in ('fullfact', 'gsd') else (2 if k == 'pb' else 3)] * d['n']
+                                for d in dvs]).astype(int)
+            idx = np.zeros(F.shape, dtype=int)
+            for j in range(nf):
+                lev = np.linspace(lo[j], up[j], L[j])
+                dist = np.abs(F[:, j][:, None] - lev[None, :])
+                idx[:, j] = dist.argmin(axis=1)
+                if dist.min(axis=1).max() > 1e-12 * (1 + abs(lo[j]) + abs(up[j])):
+                    viol.append({'inv': 'I-23-levels', 'msg': f"{tag}: {k}: factor {j} takes a value that is not one of its "
+                                 f"{L[j]} evenly spaced levels between {lo[j]} and {up[j]}: {sorted(set(F[:, j].tolist()))}",
+                                 'ctx': k})
+                    return
+            rows = [tuple(r) for r in idx.tolist()]
+            if k == 'fullfact':
+                want = set(itertools.product(*[range(x) for x in L]))
+                if len(rows) != len(want) or set(rows) != want:
+                    viol.append({'inv': 'I-23-fullfact', 'msg': f"{tag}: full factorial with levels {g['levels']} over factors "
+                                 f"{[(d['name'], d['n']) for d in dvs]} produced {len(rows)} cases ({len(set(rows))} distinct); "
+                                 f"the product of the requested levels has {len(want)}"})
+                    return
+                probes.inc('fullfact_product_checked')
+            elif k == 'pb':
+                if len(rows) % 4 or len(rows) <= nf - 0 and len(rows) < nf + 1:
+                    viol.append({'inv': 'I-23-pb', 'msg': f"{tag}: Plackett-Burman for {nf} factors produced {len(rows)} runs"})
+                    return
+                for j in range(nf):
+                    if 2 * int(idx[:, j].sum()) != len(rows):
+                        viol.append({'inv': 'I-23-pb', 'msg': f"{tag}: Plackett-Burman column {j} is not balanced"})
+                        return
+            elif k == 'gsd':
+                if len(set(rows)) != len(rows) and g['n'] == 1:
+                    viol.append({'inv': 'I-23-gsd', 'msg': f"{tag}: generalized subset design repeats a run"})
+                    return
+        if k == 'lhs':
+            ns = g['samples'] if g['samples'] is not None else nf
+            if len(F) != ns:
+                viol.append({'inv': 'I-23-lhs', 'msg': f"{tag}: latin hypercube with samples={g['samples']} over {nf} factors "
+                             f"produced {len(F)} cases"})
+                return
+            U = (F - lo[None, :]) / (up - lo)[None, :]
+            for j in range(nf):
+                s = np.floor(np.clip(U[:, j], 0, 1 - 1e-15) * ns + 0.0).astype(int)
+                # guard: a point within 1e-9 of a stratum edge may belong to either side
+                frac = U[:, j] * ns - np.round(U[:, j] * ns)
+                if np.any(np.abs(frac) < 1e-9):
+                    probes.inc('lhs_point_on_stratum_edge_not_judged')
+                    continue
+                if sorted(s.tolist()) != list(range(ns)):
+                    viol.append({'inv': 'I-23-lhs', 'msg': f"{tag}: latin hypercube (criterion={g['criterion']}, samples={ns}): "
+                                 f"factor {j} strata occupied {sorted(s.tolist())}, expected one sample in each of {ns}",
+                                 'ctx': str(g['criterion'])})
+                    return
+                if g['criterion'] in ('center', 'c', 'centermaximin', 'cm'):
+                    if np.abs(U[:, j] * ns - s - 0.5).max() > 1e-9:
+                        viol.append({'inv': 'I-23-lhs', 'msg': f"{tag}: centered latin hypercube sample is not at its stratum centre"})
+                        return
+            probes.inc('lhs_strata_checked')
+        if k == 'uniform' and len(F) != g['num_samples']:
+            viol.append({'inv': 'I-23-uniform', 'msg': f"{tag}: uniform generator produced {len(F)} of {g['num_samples']} samples"})
+        if k in ('list', 'csv'):
+            want = [np.concatenate([np.array(v, dtype=float) for _, v in case]) for case in g['cases']]
+            if len(want) != len(F) or any(not np.array_equal(a, b) for a, b in zip(want, F)):
+                viol.append({'inv': 'I-23-list', 'msg': f"{tag}: {k} generator did not yield the provided cases exactly", 'ctx': k})
+
+    def _trace_law(self, plan, emitted, trace, viol, tag, fired):
+        dvs = plan['dvs']
+        if len(trace) != len(emitted):
+            viol.append({'inv': 'I-23-trace', 'msg': f"{tag}: {len(emitted)} cases generated but the model was evaluated "
+                         f"{len(trace)} times (faults fired at evaluations {fired}, kind {plan['fault_kind']})",
+                         'ctx': 'count'})
+            return False
+        for ci, (case, got) in enumerate(zip(emitted, trace)):
+            for d, (n, v) in zip(dvs, case):
+                want = np.array(d['init'], dtype=float)
+                sel = list(range(d['src_size'])) if d['indices'] is None else [i % d['src_size'] for i in d['indices']]
+                want[sel] = v.ravel() * UFAC[d['units']]
+                if np.abs(got[d['name']].ravel() - want).max() > 1e-12 * (1 + np.abs(want).max()):
+                    viol.append({'inv': 'I-23-trace', 'msg': f"{tag}: case {ci}: generator emitted {n} = {v.tolist()} "
+                                 f"({d['units']}, indices {d['indices']}) but the model was evaluated with "
+                                 f"{got[d['name']].tolist()} (expected {want.tolist()})", 'ctx': 'value'})
+                    return False
+        return True
+
+    def run(self, plan, keep=False):
+        reset_process_state(plan.get('run_seed', 0))
+        log = Log(keep)
+        st, faults, probes = Counter(), Counter(), Counter()
+        viol = []
+        runs = []
+        p = None
+        for r in range(2):
+            seed, ndraw = plan['rng'][r]
+            np.random.seed(seed)
+            for _ in range(ndraw):
+                np.random.random()
+            probes.inc('rng_perturbations')
+            emitted, trace = [], []
+            fs = {'n': 0, 'at': set(plan['faults']), 'fired': []}
+            try:
+                with contextlib.redirect_stdout(io.StringIO()), contextlib.redirect_stderr(io.StringIO()):
+                    if r == 0 or plan['second'] == 'fresh':
+                        p = self._build(plan, emitted, trace, fs, str(r))
+                        holder = {'emitted': emitted, 'trace': trace, 'fs': fs}
+                    else:
+                        # same Problem: its wrapper appends to the first run's lists; cut them afterwards
+                        holder_prev = (len(holder['emitted']), len(holder['trace']))
+                        holder['fs']['n'] = 0
+                        holder['fs']['fired'] = []
+                    p.run_driver()
+            except Exception as e:      # noqa
+                import traceback
+                import re
+                tb = traceback.extract_tb(e.__traceback__)
+                if not any('/repo/' in f.filename or 'pydoe' in f.filename for f in tb):
+                    raise
+                msg = f"{type(e).__name__}: {str(e)[:300]}"
+                if plan['gen']['kind'] == 'gsd' and 'reduction too large' in str(e):
+                    # documented pydoe precondition of gsd(levels, reduction)
+                    return {'viol': [], 'digest': log.digest(), 'stats': st, 'faults': faults, 'probes': Counter(
+                        {'gsd_reduction_too_large_void': 1}), 'shape': 'void', 'nontrivial': False, 'sim_time': 0.0}
+                viol.append({'inv': 'I-23-exception', 'msg': f"run {r}: {msg} (at {tb[-1].filename.split('/')[-1]}:{tb[-1].lineno})",
+                             'ctx': type(e).__name__ + ':' + re.sub(r'[-+]?\d[\d.e+-]*', '#', str(e))[:60]})
+                break
+            if r == 1 and plan['second'] == 'rerun':
+                emitted = holder['emitted'][holder_prev[0]:]
+                trace = holder['trace'][holder_prev[1]:]
+                fs = holder['fs']
+                probes.inc('second_execution_on_same_problem')
+            for kf in fs['fired']:
+                faults.inc(plan['fault_kind'])
+            st.inc('cases', len(emitted))
+            log.ev('run', r, len(emitted), len(trace), [[(n, v) for n, v in c] for c in emitted][:400])
+            self._laws(plan, emitted, viol, probes, f"run {r}")
+            if viol:
+                break
+            if not self._trace_law(plan, emitted, trace, viol, f"run {r}", fs['fired']):
+                break
+            if fs['fired'] and len(emitted) > max(fs['fired']) + 1:
+                probes.inc('cases_evaluated_after_a_failed_case')
+            runs.append(list(emitted))
+        if not viol and len(runs) == 2:
+            g = plan['gen']
+            seeded = g['kind'] not in ('lhs', 'uniform') or g.get('seed') is not None
+            same = len(runs[0]) == len(runs[1]) and all(
+                all(np.array_equal(a[1], b[1]) for a, b in zip(c0, c1)) for c0, c1 in zip(runs[0], runs[1]))
+            if seeded:
+                probes.inc('reproducibility_checked')
+                if not same:
+                    viol.append({'inv': 'I-23-reproducible', 'msg': f"{g['kind']} (seed={g.get('seed')}) generated different "
+                                 f"cases in two executions ({plan['second']}) that differ only in the ambient global RNG state: "
+                                 f"{len(runs[0])} vs {len(runs[1])} cases", 'ctx': g['kind'] + ':' + plan['second']})
+            elif not same:
+                probes.inc('unseeded_generator_varied_with_rng_state')
+        nontriv = not viol and len(runs) == 2 and len(runs[0]) >= 2
+        res = {'viol': viol, 'digest': log.digest(), 'stats': st, 'faults': faults, 'probes': probes,
+               'shape': f"{plan['family']}-{plan['gen']['kind']}-{len(plan['dvs'])}-{plan['second']}-"
+                        f"{'F' if plan['faults'] else 'N'}",
+               'nontrivial': nontriv, 'sim_time': 0.0}
+        if keep:
+            res['events'] = log.events
+        return res
+
+    def candidates(self, plan):
+        if plan['faults']:
+            c = copy.deepcopy(plan)
+            c['faults'] = []
+            yield c
+        if plan['second'] != 'fresh':
+            c = copy.deepcopy(plan)
+            c['second'] = 'fresh'
+            yield c
+        if len(plan['dvs']) > 1 and plan['gen']['kind'] not in ('list', 'csv'):
+            for i in range(len(plan['dvs'])):
+                c = copy.deepcopy(plan)
+                nm = c['dvs'][i]['name']
+                del c['dvs'][i]
+                if isinstance(c['gen'].get('levels'), dict):
+                    c['gen']['levels'].pop(nm, None)
+                    if not c['gen']['levels']:
+                        c['gen']['levels'] = 2
+                if c['gen']['kind'] != 'bb' or sum(d['n'] for d in c['dvs']) >= 3:
+                    yield c
+        for i, d in enumerate(plan['dvs']):
+            for key, val in (('scale', {}), ('units', None)):
+                if d[key]:
+                    c = copy.deepcopy(plan)
+                    c['dvs'][i][key] = val
+                    yield c
+            if d['indices'] is not None and plan['gen']['kind'] not in ('list', 'csv', 'bb'):
+                c = copy.deepcopy(plan)
+                dd = c['dvs'][i]
+                dd['indices'] = None
+                dd['src_size'] = dd['n']
+                dd['init'] = dd['init'][:dd['n']]
+                yield c
+        for r in range(2):
+            if plan['rng'][r][1]:
+                c = copy.deepcopy(plan)
+                c['rng'][r][1] = 0
+                yield c
+
+    def signature(self, plan, viol):
+        return viol['inv'] + (':' + viol['ctx'] if viol.get('ctx') else '')
+
+
+CHECKS = {'C21': C21(), 'C23': C23()}
